@@ -315,8 +315,8 @@ EXTRA = {
            "reported as analysis-error, exit 2). Round 2-3: graph entry points use the graph's own node order; emitter_sorted takes its count from the whole graph; no identity-keyed result cache; any()/all() over index lists. Generic rules as listed under C01. Round 4: rref.classify / dispatch / step / loop and height.leftmost; one computed height per position (no early exit, no padding); an emitter count from an unknown algorithm is reported as undecided (exit 2), not as a violation. Round 6: rref.inline-step; sibling.xz-rowops; index.space; search.fallthrough. Round 8: height.max-whole. Round 10: every value height_max returns is computed from the height function (no shape-of-the-graph shortcut).",
     "C04": "Also: re-joined edges inherit key/register attributes (edge.keys). Round 2-3: reachability on the whole DAG (reach.whole-dag); emitter counter capped (budget.emitter-cap). Generic rules as listed under C01. Round 4: no measure-and-reset is appended before all emission CNOTs are in place (order.emission-first). Round 4+: validate.shape (acyclicity asserted; sources must be Input, sinks Output, polarity on the truth table); filter.literals (each move's edge filter implies the frozen literals, on its truth table). Round 5: 'Fixed' label before insertion is followed into helpers of the class; the noisy copy replays operations in topological order (order.topological on _slim_seq). Round 6: index.space. Round 7: move.edge-roles; own.frontinsert. Round 9: a one-qubit move builds its gate on the register of the edge it is inserted at (move.edge-roles); _remove_edge names the edge with its key.",
     "C05": "Also: scratch accumulator rows are rebuilt in every iteration (acc.fresh, reaching definitions over the back edge); Z-only pivot choice "
-           "(pivot.choice); phase combination of row products (phase-combine). Round 2-3: storage arrays freshly allocated per field (own.fresh-storage); reduced echelon form over all rows (canon.reduced); elimination passes of inverse_circuit in order (inverse.blocks); every return of Stabilizer.__eq__; X-type test over the whole row. Round 3: Bit formulas: hadamard_gate / phase_gate / cnot_gate interpreted over GF(2) polynomials of a generic row and compared with the conjugation tables of H, P, CNOT (prim.formula); g_function's 16-entry table (prim.g-table); row_sum's accumulation, linear phase form, mod 4, hi/lo split and add_rows direction (prim.row-sum); linalg column/row helper shapes (prim.helper). Generic rules as listed under C01. Round 4+: elim.direction; eq.decision (truth table of StabilizerTableau / CliffordTableau __eq__); fid.shape structural (|inner_product|^2 in any equivalent form; int() of a float logarithm reported); known finding inverse.pivot-found. Round 5: vectorised row_sum phase term (prim.row-sum); block tests with inlined helpers; Infidelity returns 1 - F and its representation literals agree (metric.value); branch contribution is p_i * F(target, branch_i) (weight.fidelity). Round 6: sibling.xz-rowops; rref.inline-step; inverse.canonical-first. Round 7: fid.reduced-reference; emit.mirror armed here. Round 8: inverse.zpivot-h. Round 9-10: reverse.table / replay armed here (tableaux built from stabilizers replay the inverse circuit with reverse=True); row_sum roles in elimination loops; inverse_circuit never returns before its sign pass.",
-    "C06": "Also: both noise placements of a controlled gate are applied (noise.both-applied, stale-swap-read); mixture weights are preserved (weight.preserve). Round 2-3: in-place edits through property getters reach the stored object (effect.getter-alias); temporary overwrites of an operation's fields are undone from a copy; measurement divides by the conditional probability; per-branch fidelities weighted; mixed-stabilizer gate methods agree with the pure ones. Generic rules as listed under C01. Round 4: the four per-qubit operations of each DepolarizingNoise branch are I, X, Y, Z with I first, whether given as gate functions, matrices or sign masks (noise.pauli-set). Round 4+: noise.placement (model-based hook order of compile()); noise.pauli-tags (tag -> applied Pauli per backend branch, tag domain folded); type.isinstance-on-class. Round 5: a clamp of an affine function of a noise strength is inactive on [0, 1] (num.saturating-strength); every one-qubit class incl. Identity reaches the branch applying op.noise (noise.single-applied); per-branch size reads during in-place resizes (size.stale-per-branch); metric.value; order.topological on _slim_seq. The _identify_noise map-key defect (#52) is printed as ADVISORY: it breaks no clause of this property. Round 7: dist.shape (pure-state shortcut of dmf.fidelity) armed here. Round 9: the wrapper-level noise carrier lands on the side its 'After gate' flag says (unwrap.order on the wrapper model).",
+           "(pivot.choice); phase combination of row products (phase-combine). Round 2-3: storage arrays freshly allocated per field (own.fresh-storage); reduced echelon form over all rows (canon.reduced); elimination passes of inverse_circuit in order (inverse.blocks); every return of Stabilizer.__eq__; X-type test over the whole row. Round 3: Bit formulas: hadamard_gate / phase_gate / cnot_gate interpreted over GF(2) polynomials of a generic row and compared with the conjugation tables of H, P, CNOT (prim.formula); g_function's 16-entry table (prim.g-table); row_sum's accumulation, linear phase form, mod 4, hi/lo split and add_rows direction (prim.row-sum); linalg column/row helper shapes (prim.helper). Generic rules as listed under C01. Round 4+: elim.direction; eq.decision (truth table of StabilizerTableau / CliffordTableau __eq__); fid.shape structural (|inner_product|^2 in any equivalent form; int() of a float logarithm reported); known finding inverse.pivot-found. Round 5: vectorised row_sum phase term (prim.row-sum); block tests with inlined helpers; Infidelity returns 1 - F and its representation literals agree (metric.value); branch contribution is p_i * F(target, branch_i) (weight.fidelity). Round 6: sibling.xz-rowops; rref.inline-step; inverse.canonical-first. Round 7: fid.reduced-reference; emit.mirror armed here. Round 8: inverse.zpivot-h. Round 9-10: reverse.table / replay armed here (tableaux built from stabilizers replay the inverse circuit with reverse=True); row_sum roles in elimination loops; inverse_circuit never returns before its sign pass. Round 11: inner_product collects a generator's Z columns over every column (fid.z-support).",
+    "C06": "Also: both noise placements of a controlled gate are applied (noise.both-applied, stale-swap-read); mixture weights are preserved (weight.preserve). Round 2-3: in-place edits through property getters reach the stored object (effect.getter-alias); temporary overwrites of an operation's fields are undone from a copy; measurement divides by the conditional probability; per-branch fidelities weighted; mixed-stabilizer gate methods agree with the pure ones. Generic rules as listed under C01. Round 4: the four per-qubit operations of each DepolarizingNoise branch are I, X, Y, Z with I first, whether given as gate functions, matrices or sign masks (noise.pauli-set). Round 4+: noise.placement (model-based hook order of compile()); noise.pauli-tags (tag -> applied Pauli per backend branch, tag domain folded); type.isinstance-on-class. Round 5: a clamp of an affine function of a noise strength is inactive on [0, 1] (num.saturating-strength); every one-qubit class incl. Identity reaches the branch applying op.noise (noise.single-applied); per-branch size reads during in-place resizes (size.stale-per-branch); metric.value; order.topological on _slim_seq. The _identify_noise map-key defect (#52) is printed as ADVISORY: it breaks no clause of this property. Round 7: dist.shape (pure-state shortcut of dmf.fidelity) armed here. Round 9: the wrapper-level noise carrier lands on the side its 'After gate' flag says (unwrap.order on the wrapper model). Round 11: the placement model reads the 'After gate' flag through .get as well (`x or True` evaluated as Python does).",
     "C07": "Also: measurement row sets / outcome use (measure.rowset, measure.outcome-used), destabilizer/stabilizer halves of sign vectors (num.halves). Round 2-3: project API existence (api.project); fresh storage; outcome reaches the signs on every path; falsy-zero positions. Bit formulas: hadamard_gate / phase_gate / cnot_gate interpreted over GF(2) polynomials of a generic row and compared with the conjugation tables of H, P, CNOT (prim.formula); g_function's 16-entry table (prim.g-table); row_sum's accumulation, linear phase form, mod 4, hi/lo split and add_rows direction (prim.row-sum); linalg column/row helper shapes (prim.helper). Generic rules as listed under C01. Round 4: num.rowcol follows loop aliases of the phase vectors and index lists built from column-only names; run_circuit's tag table (chain or dictionary dispatch) maps each tag to its gate and, reversed, to its inverse (reverse.table); a reset consults the measured outcome on every path (fix d7dc077); trace_out_* hands partial_trace the complement of its argument (fix d528b5f). Round 4+: measure.indices (linear forms of the Aaronson-Gottesman measurement), insert.layout, tensor.layout, eq.decision, determinism map. Round 5: measure.basis-restored is path-sensitive; reset_x / reset_y map Z to +X / +Y for both requested states (reset.basis); size.stale-per-branch (fix fe19a4d). Round 7: removal walk as a descending range with coverage of position 0; sequential single inserts into the sign vectors. Round 9: own.rowops reads row_sum's in-place sign update and the phase getter instead of demanding an assignment; in an elimination loop the pivot taken from the row set is the row to add; the destabilizer copy follows the elimination loop.",
     "C08": "Also: canonical-form comparisons compare canonical forms on both sides (canon.compare); node order of graph conversions (node.order). Round 2-3: kinds of values handed to dispatching converters (call.accepts); new representation computed from the current data; numpy view staleness; filtered-list positions vs labels; signs carried when tableaux are rebuilt (sign.carry); state equivalence on canonical forms; known finding: stabilizer_to_density ignores signs. Generic rules as listed under C01. Round 6: sibling.xz-rowops; convert.no-sign-precondition; node.order accepts a graph's own node order as nodelist. Round 7: conv.pauli-from-bits. Round 8: conv.inverse-side; graph.from-matrix. Round 10: state_to_graph applies its phase correction on every path through _graph_finder (flow.phase-correction); project_and_remove takes the complementary projector only for a zero-probability outcome (guard.zero-probability).",
     "C09": "Also: the random search hands the in-place solver a vector created in the same trial (trial.fresh); block determinants are reduced mod 2 "
@@ -324,16 +324,16 @@ EXTRA = {
     "C10": "Also: conversion gates may be omitted only under an adjacency-equality (or empty lc_check result) guard (conv.guard); the duplicate filter "
            "sees every result entry (dedup.covers-all). Round 2-3: relabel map shortcut pairs by position; matcher argument order. Generic rules as listed under C01. Round 4: duplicate filter followed into a helper, no read of the unfiltered list afterwards; str_to_op packs per-qubit gates into a wrapper in product order (order.wrapper). Round 5 / blind-spot pass: duplicate filter interpreted over all partitions of up to five entries (dedup.model, gqsa/minterp.py); str_to_op constructor shape; order.topological on _slim_seq. Round 6: index.space; enumerate loops read through; every binding of the relabel map inside the loop is the matcher call. Round 7: own.frontinsert. Round 8: relabel.target-labels. Round 10: SolverResult.sort_by interpreted on a 3 x 3 table (rows stay rows: result.sort-rows); dedup.model entries carry circuit, score and map, for every partition and every strict score order of up to four entries (each survivor is an untouched original entry).",
     "C11": "Also: consumed-tableau discipline, Z-only pivot choice (pivot.choice), direct sign-update gate forms. Round 2-3: elimination passes in order; result caches keyed by table only. Bit formulas: hadamard_gate / phase_gate / cnot_gate interpreted over GF(2) polynomials of a generic row and compared with the conjugation tables of H, P, CNOT (prim.formula); g_function's 16-entry table (prim.g-table); row_sum's accumulation, linear phase form, mod 4, hi/lo split and add_rows direction (prim.row-sum); linalg column/row helper shapes (prim.helper). Round 3: row operations through local holders of the tableau's matrices; the replayed identity tableau is untouched before the replay. Generic rules as listed under C01. Round 4: run_circuit dictionary dispatch; get_clifford_tableau_from_graph builds from the whole graph's stabilizer tableau (graph.whole). Round 5: block tests unfolded after inlining single-return helpers. Round 6: inverse.canonical-first; sibling.xz-rowops; rref.inline-step. Round 8: inverse.zpivot-h. Round 10: CliffordTableau(<StabilizerTableau>) takes its signs from the converted tableau (ctor.phase-source); no return before the sign pass of inverse_circuit.",
-    "C12": "Also: node-label index maintenance on add/remove/replace (sibling.nodekeys) and re-joined edge attributes. Round 2-3: reachability on the whole DAG; exports walk sequence(); merged wrapper chunk direction. Round 3: register lists and depth counters grow together (own.registers paired). Generic rules as listed under C01. Round 4: sibling.nodekeys as index events with helpers inlined; reg.ensure; validate.shape; custom reachability traversals inspected. Round 5 / blind-spot pass: _add_reg_if_absent decision and wire shape (reg.create); index update under exactly the conditions of the graph mutation (own.dag); node_dict keys are never deleted while unguarded subscript readers exist (index.key-stays); grouping loop flushes the run before every continue (group.run-closed); literal table loops are unrolled before the index-event analysis. Round 7: zip.pairing (generic); unwrap.order own-register clause; every wrapper expanded. Round 9: wire labels use register numbers, never positions in an operation's register list (wire.label-values); _remove_edge names the keyed edge; unwrap.order on the wrapper model.",
-    "C13": "Also: a .copy() of a container of tableaux is shallow and still aliases (effect.alias-into-state). Round 2-3: in-place element stores into an operation's field; exports / copies walk sequence(). Round 3: remove_identity removes exactly Identity operations (identity.scope). Generic rules as listed under C01. Round 4: sibling.nodekeys (armed here), unwrap.source, effect.noise-preserved (fixes 33bd08e, 0258182, 9f7bf9b), noise.placement. Round 5: group.run-closed. Round 7: grouping wrapper names the walked register and type; unwrap_nodes expands every wrapper. Round 9: copy() returns the deep copy without storing into its operations (copy.faithful); identity.scope also reads inline predicates on parameterised rotations (every angle tested); every class labelled 'one-qubit' is accepted by the grouping wrapper (group.label-classes; one known finding: MeasurementZ).",
+    "C12": "Also: node-label index maintenance on add/remove/replace (sibling.nodekeys) and re-joined edge attributes. Round 2-3: reachability on the whole DAG; exports walk sequence(); merged wrapper chunk direction. Round 3: register lists and depth counters grow together (own.registers paired). Generic rules as listed under C01. Round 4: sibling.nodekeys as index events with helpers inlined; reg.ensure; validate.shape; custom reachability traversals inspected. Round 5 / blind-spot pass: _add_reg_if_absent decision and wire shape (reg.create); index update under exactly the conditions of the graph mutation (own.dag); node_dict keys are never deleted while unguarded subscript readers exist (index.key-stays); grouping loop flushes the run before every continue (group.run-closed); literal table loops are unrolled before the index-event analysis. Round 7: zip.pairing (generic); unwrap.order own-register clause; every wrapper expanded. Round 9: wire labels use register numbers, never positions in an operation's register list (wire.label-values); _remove_edge names the keyed edge; unwrap.order on the wrapper model. Round 11: identity removal visits every identity node (no break / return in the walk).",
+    "C13": "Also: a .copy() of a container of tableaux is shallow and still aliases (effect.alias-into-state). Round 2-3: in-place element stores into an operation's field; exports / copies walk sequence(). Round 3: remove_identity removes exactly Identity operations (identity.scope). Generic rules as listed under C01. Round 4: sibling.nodekeys (armed here), unwrap.source, effect.noise-preserved (fixes 33bd08e, 0258182, 9f7bf9b), noise.placement. Round 5: group.run-closed. Round 7: grouping wrapper names the walked register and type; unwrap_nodes expands every wrapper. Round 9: copy() returns the deep copy without storing into its operations (copy.faithful); identity.scope also reads inline predicates on parameterised rotations (every angle tested); every class labelled 'one-qubit' is accepted by the grouping wrapper (group.label-classes; one known finding: MeasurementZ). Round 11: assign_noise gives the noisy copy all three register counts of the original (noisy-copy.registers); identity removal visits every identity node.",
     "C14": "Also: importer regexes are inspected as syntax trees (regex.repeated-group), header/register coverage (header.cover). Round 2-3: exports walk sequence(); composite body per operation (not per distinct gate); measurement written to the classical register (qasm.creg); every written JSON key read back for every class that has it (json.fields); reader classes default-constructible (json.ctor). Generic rules as listed under C01. Round 4: json.wrapper-complete; qasm.per-operation. Round 6: constructor calls and key spellings in arg.names-swapped; qasm.declares-used; info functions built by a helper are specialised per call. Round 8: state.class-store; defined-gate return guarded by membership. Round 10: every operation's statement is exported whatever was written before (export.every-statement); the importer's look-ahead guards admit exactly the offsets read under them (parse.lookahead-guard).",
-    "C15": "Also: multi-edge matching and both-end roles (cmp.multiedge), node-label index (sibling.nodekeys). Round 2-3: comparison helpers followed (exact vs approximate); ged result compared with 0 (ged.zero). Generic rules as listed under C01. Round 4: cmp.every-step; role pairs compared as units; cmp.decision (truth tables of direct()'s step, its precheck, node_match, edge_match); cmp.walk-edge. Round 5 / blind-spot pass: full-isomorphism verdict; zip.truncation; redundancy filters interpreted over every list of up to four circuits and every reported-equal relation (dedup.model). Round 7: comparisons followed into helpers / named intermediates; unordered register comparison only for symmetric gates; unwrap_nodes expands every wrapper. Round 9: identity.scope armed here (comparisons work on identity-free copies: only identities may be removed).",
+    "C15": "Also: multi-edge matching and both-end roles (cmp.multiedge), node-label index (sibling.nodekeys). Round 2-3: comparison helpers followed (exact vs approximate); ged result compared with 0 (ged.zero). Generic rules as listed under C01. Round 4: cmp.every-step; role pairs compared as units; cmp.decision (truth tables of direct()'s step, its precheck, node_match, edge_match); cmp.walk-edge. Round 5 / blind-spot pass: full-isomorphism verdict; zip.truncation; redundancy filters interpreted over every list of up to four circuits and every reported-equal relation (dedup.model). Round 7: comparisons followed into helpers / named intermediates; unordered register comparison only for symmetric gates; unwrap_nodes expands every wrapper. Round 9: identity.scope armed here (comparisons work on identity-free copies: only identities may be removed). Round 11: cmp.normalise follows a copying helper and requires the wrappers to be expanded before the identities are dropped.",
     "C16": "Also: iso_finder's result is one whole de-duplicated batch, a slice or a re-ordering of one, and explorers test candidates against the "
            "whole list they append to (distinct.source). Round 2-3: relabel map shortcut / direction; local_comp_graph label vs position incl. result relabelling. Generic rules as listed under C01. Round 4: cmp.labelled-graphs (structure only, one common node order; fix 4d87d10). Left undecided on purpose: distinctness of scripted walks (integer-sequence values). Round 6: no untested append in a de-duplicating explorer; iso.bounded; iso.input-first (known finding: sort_emit re-orders the result). Round 8: distinct.prefix-set. Round 10: check_isomorphism is an existential search over the whole list (distinct.member-search).",
     "C17": "Also: eigh/sqrtm_psd/hermitianize receive matrices that are Hermitian by construction (num.hermitian-arg); the partial-trace subscript is "
-           "checked per axis position (row letter / column letter of kept and dropped axis i). Round 2-3: einsum subscript as abstract letter sequences incl. output order; trace-distance closed form only for two pure states; weighted branch fidelities. Round 3: eigenvalues clipped at exactly 0 before the square root (num.spectral-sqrt); representation dispatch of the metric (rep.dispatch). Generic rules as listed under C01. Round 4: per-branch overlap squared; dist.whole-state; chain.subject-drift (fix 3b18837); known finding sign.used shared with C08. Round 5 / blind-spot pass: metric.value; weight.fidelity branch-contribution clause; the stabilizer side of the cross-representation clause (fid.shape, counter condition) armed here too. Round 7: num.spectra-paired; conv.pauli-from-bits.",
+           "checked per axis position (row letter / column letter of kept and dropped axis i). Round 2-3: einsum subscript as abstract letter sequences incl. output order; trace-distance closed form only for two pure states; weighted branch fidelities. Round 3: eigenvalues clipped at exactly 0 before the square root (num.spectral-sqrt); representation dispatch of the metric (rep.dispatch). Generic rules as listed under C01. Round 4: per-branch overlap squared; dist.whole-state; chain.subject-drift (fix 3b18837); known finding sign.used shared with C08. Round 5 / blind-spot pass: metric.value; weight.fidelity branch-contribution clause; the stabilizer side of the cross-representation clause (fid.shape, counter condition) armed here too. Round 7: num.spectra-paired; conv.pauli-from-bits. Round 11: a reshape-and-trace fast path of partial_trace is guarded by 'the kept indices start at 0' (trace.leading-block).",
     "C18": "Also: loops that remove the element they iterate over walk a snapshot (iter.snapshot); the three emitter-depth metrics read each "
-           "emitter's own gate history on the unwrapped, identity-free copy (metric.source). Round 2-3: cache invalidation coverage (memo.sound); flattened copy is the only receiver (metric.receiver). Round 3: depth is the maximum of the per-register counts (depth.longest); emitter history cut exactly at Input / MeasurementCNOTandReset / Output with helpers followed (metric.reset-points); register/depth lists grow together. Generic rules as listed under C01. Round 4: label.all-of; wire.follow-edge; metric.arith (counts from 0 by addition, consecutive differences over all pairs, maximum). Round 5: metric.source follows a preparation helper and reports an early return; literal table loops unrolled in replace_op's index events. Round 7: depth.index-aligned; complement-query clause of table.labels; unwrap_nodes expands every wrapper. Round 9: the penalty function is applied once, to the aggregated depth (metric.source); edge.keys armed here.",
+           "emitter's own gate history on the unwrapped, identity-free copy (metric.source). Round 2-3: cache invalidation coverage (memo.sound); flattened copy is the only receiver (metric.receiver). Round 3: depth is the maximum of the per-register counts (depth.longest); emitter history cut exactly at Input / MeasurementCNOTandReset / Output with helpers followed (metric.reset-points); register/depth lists grow together. Generic rules as listed under C01. Round 4: label.all-of; wire.follow-edge; metric.arith (counts from 0 by addition, consecutive differences over all pairs, maximum). Round 5: metric.source follows a preparation helper and reports an early return; literal table loops unrolled in replace_op's index events. Round 7: depth.index-aligned; complement-query clause of table.labels; unwrap_nodes expands every wrapper. Round 9: the penalty function is applied once, to the aggregated depth (metric.source); edge.keys armed here. Round 11: CircuitMaxEmitResetDepth's per-emitter loop interpreted on every emitter history of up to four operations (metric.reset-model).",
     "C19": "Also: hall-of-fame / population members are fresh objects per iteration. Round 2-3: who may write the hall of fame (own.hof). Round 3: result refreshed unconditionally after the last update_hof; keyed min/max/sorted, iter() and pop() over sets are order-sensitive (order.sethash). Generic rules as listed under C01. Round 4: score.fresh (every transformed member re-scored on every path); keys.cover. The _identify_noise map-key defect (#52) is printed as ADVISORY here as well. Round 6: per-member copies in tournament selection (structural, no name anchor); effect.shared-default. Round 10: hof.order reads unpacked entry names; a tie-break stores the new entry's own score.",
     "C20": "Also: the global-phase pivot of check_equivalent_unitaries is a provably non-zero entry (phase.pivot). Round 2-3: per-rule guard lets reject.fallthrough report behind an unparseable sibling. Round 3: simplification results stay inside the 24-element table (simplify.member); derived tableau gates compose to what they name (effect.derived-gate). Generic rules as listed under C01. Round 4: qasm.per-operation; group.order. Blind-spot pass: check_equivalent_unitaries decision table (equiv.decision). Round 6: sibling.qindex incl. the raw-register clause armed here (same qubit in both backends). Round 8: Stabilizer / MixedStabilizer gate table armed here (helper forwarding read). Round 9-10: unwrap.order / order.wrapper decided on the wrapper model; setter.derived-fields armed here.",
 }
